@@ -256,6 +256,7 @@ def check_pins(pid):
 
 
 def run_coq_cases(terms, imports, tag, timeout=900):
+    if len(terms) > 50000: timeout = max(timeout, 3000)   # thorough tiers: a shard of many long literals can take more than 15 min on a loaded machine
     """evaluate Coq terms of type string with vm_compute, sharded over NCPU coqc
     processes.  Returns list of result strings (None where evaluation failed)."""
     if not terms:
